@@ -81,7 +81,19 @@ def corpus(tabs, rng, per_ident, modes=("rand",), maxcount=3, idents=None, label
                 b = gen.build(tabs, ident, rng, maxcount=1, mode=mode, maskmode="last", label=label)
             if b is not None and len(b.payload) <= 1023:
                 out.append(b)
+        if ident in tabs.M:     # explicit MSM shapes, rotating so that every run covers all of them across the 49 MSM identities
+            for _ in range(2):
+                SHAPE_NEXT[0] += 1
+                sh = gen.MSM_SHAPES[SHAPE_NEXT[0] % len(gen.MSM_SHAPES)]
+                b = gen.build(tabs, ident, rng, maxcount=maxcount, mode=modes[SHAPE_NEXT[0] % len(modes)], maskmode=sh, label=label)
+                if b is None or len(b.payload) > 1023:   # too many cells for this MSM level: same satellites / signals, fewer cells
+                    b = gen.build(tabs, ident, rng, maxcount=maxcount, mode="rand", maskmode=sh[:3] + (min(sh[3], 6), sh[4]), label=label)
+                if b is not None and len(b.payload) <= 1023:
+                    out.append(b)
     return out
+
+
+SHAPE_NEXT = [0]
 
 
 def check_expected(em, impl, b, label, what="C03"):
@@ -262,6 +274,33 @@ def run_C07(em, impl, tabs, rng, thorough):
                     ok = False
                 if not ok:
                     em.violation("C07: parse(serialize(m), validate=%d, labelmsm=%d) does not give back payload / identity / attributes / frame" % (v, lab), {"payload": p.hex(), "frame": f.hex()}, {})
+        # a message obtained from a NON-canonical frame (validation off: wrong checksum bytes, reserved length bits set, a wrong
+        # length field, another first byte) still serialises to the canonical frame of its payload
+        em.direct_evaluations += 1
+        variants = [("wrong checksum", f[:-3] + bytes([f[-3] ^ 0x5A, f[-2], f[-1] ^ 1])),
+                    ("reserved bits set", bytes([f[0], f[1] | rng.choice([0x04, 0x80, 0xA4, 0xFC])]) + f[2:]),
+                    ("wrong length field", bytes([f[0], f[1], f[2] ^ 0x11]) + f[3:]),
+                    ("first byte not the preamble", bytes([0x00]) + f[1:])]
+        for what, g in variants:
+            for lab in (1, 2):
+                try:
+                    mg = RTCMReader.parse(g, validate=0, labelmsm=lab)
+                    okv = mg.payload == p and mg.serialize() == want and (lab != 1 or gen.public_attrs(mg) == gen.public_attrs(m))
+                    detail = {"serialize": mg.serialize().hex()[:80] + ".." + mg.serialize().hex()[-12:], "canonical": want.hex()[:80] + ".." + want.hex()[-12:]}
+                except Exception as e:  # noqa
+                    okv, detail = False, {"exception": repr(e)}
+                if not okv:
+                    em.violation("C07: a message parsed (validate=0) from a frame with %s does not serialise to the canonical frame of its payload" % what,
+                                 {"frame": g.hex(), "payload": p.hex(), "labelmsm": lab}, detail)
+                    break
+        try:
+            import io as _io
+            g = variants[0][1]
+            gotg = list(RTCMReader(_io.BytesIO(g + f), validate=0))
+            if [r for r, _ in gotg] != [g, f] or any(mm.payload != p or mm.serialize() != want for _, mm in gotg):
+                em.violation("C07: a message read (validate=0) from a wrong-checksum frame does not serialise to the canonical frame", {"stream": (g + f).hex(), "payload": p.hex()}, {})
+        except Exception as e:  # noqa
+            em.violation("C07: reader with validate=0 raised %r" % e, {"stream": (variants[0][1] + f).hex()}, {})
         try:
             import io as _io
             got = list(RTCMReader(_io.BytesIO(f + f), validate=0))
@@ -316,17 +355,25 @@ def check_labels_from_masks(em, impl, b, label):
 def run_C09(em, impl, tabs, rng, thorough):
     msm = list(tabs.M)
     modes = [None, "full", "empty", "last", "reserved", None]
+    nsh = 0
     for label in (1, 2):
         for ident in msm:
-            for r in range(len(modes) * (2 if thorough else 1)):
-                mm = modes[r % len(modes)]
+            for r in range((len(modes) + 2) * (2 if thorough else 1)):
+                mm = modes[r % (len(modes) + 2)] if r % (len(modes) + 2) < len(modes) else None
+                if mm is None and r % (len(modes) + 2) >= len(modes):
+                    nsh += 1
+                    mm = gen.MSM_SHAPES[nsh % len(gen.MSM_SHAPES)]
                 b = gen.build(tabs, ident, rng, mode="rand", maskmode=mm, label=label)
                 if b is None or len(b.payload) > 1023:
                     # too many cells for 1023 bytes: keep the masks, thin the cell mask
                     b = gen.build(tabs, ident, rng, mode="zeros", maskmode=mm, label=label)
                 if b is None or len(b.payload) > 1023:
                     continue
-                em.count("mask." + str(mm))
+                em.count("mask." + (str(mm) if not isinstance(mm, tuple) else "shape"))
+                if b.counts.get("NSat", 0) * b.counts.get("NSig", 0) > 64:
+                    em.count("cellmask.wider-than-64")
+                if b.counts.get("NSat") == 64 or b.counts.get("NCell", 0) >= 64:
+                    em.count("index.64-or-more")
                 add_case(em, impl, b.payload, label, MSM, "%s masks=%s label option %d: NSat=%s NSig=%s NCell=%s" % (
                     ident, mm, label, b.counts.get("NSat"), b.counts.get("NSig"), b.counts.get("NCell")))
                 check_expected(em, impl, b, label, "C09")
